@@ -8,6 +8,7 @@ import ast
 
 from ..cfg import CFG
 from ..model import walk_shallow, call_name, is_self_attr, dotted_name, parent, ancestors, enclosing_function
+from ..util import canon
 from ..util import (has_call, find_calls, assigned_value, const_str, unparse, kw, arg_or_kw, enclosing_stmt,
                     guards_of, call_tail, control_ancestors)
 from .. import mutate as M
@@ -46,6 +47,8 @@ def run(ctx):
     r13_forwarding_getattr(ctx)
     r14_empty_views(ctx)
     r15_getitem_domain(ctx, sparse)
+    r16_position_changing_views(ctx, dense)
+    r17_categorical_expansion(ctx)
 
 
 def r1_complete(ctx, dense, sparse):
@@ -209,8 +212,9 @@ def r6_split(ctx):
     ln = unparse(next(x for x in walk_shallow(d.methods["__len__"]) if isinstance(x, ast.Return)).value)
     ctx.ob("C13.R6", ROWS, "DropOne.__len__", d.methods["__len__"], "DropOne has one element fewer than its row", ln == "len(self._row) - 1", detail={"len": ln})
     gi = d.methods["__getitem__"]
-    shift = [x for x in walk_shallow(gi) if isinstance(x, ast.If)]
-    ok = len(shift) == 1 and unparse(shift[0].test) == "key >= self._ind" and unparse(shift[0].body[0]) == "key += 1"
+    K = gi.args.args[1].arg
+    shift = [x for x in gi.body if isinstance(x, ast.If) and any(isinstance(b, ast.AugAssign) for b in x.body)]
+    ok = len(shift) == 1 and canon(unparse(shift[0].test)) == canon(f"{K} >= self._ind") and unparse(shift[0].body[0]) == f"{K} += 1"
     ctx.ob("C13.R6", ROWS, "DropOne.__getitem__", gi, "positions at or after the dropped index are shifted by one", ok)
     it = d.methods["__iter__"]
     r = unparse(next(x for x in walk_shallow(it) if isinstance(x, ast.Return)).value)
@@ -433,6 +437,17 @@ def r12_header_names(ctx):
                 and not any((not pol) and "isinstance(" in unparse(t) and "Mapping" in unparse(t) for t, pol in all_guards(c, er))]  # enumerating a header *list* is fine
     ctx.ob("C13.R12", ROWS, "EncodeRows.filter", enum_hdr[0] if enum_hdr else er, "positions of named columns come from the header map's values, not from enumerating the map", not enum_hdr, stmt="encoders by header position")
     md = ctx.fn(ROWS, "DropRows.make_drop_row_args")
+    # the same holds for every stage that pairs header names with positions: enumerate(<row>.headers) is the order the map was WRITTEN in
+    n_enum = 0
+    for qual in ("DropRows.make_drop_row_args", "LabelRows.filter", "HeadRows.filter", "EncodeCatRows.filter"):
+        if not ctx.model.has_func(ROWS, qual):
+            continue
+        f_ = ctx.fn(ROWS, qual)
+        for c_ in [c_ for c_ in ast.walk(f_) if isinstance(c_, ast.Call) and call_name(c_) == "enumerate" and c_.args and unparse(c_.args[0]).endswith(".headers")]:
+            n_enum += 1
+            guarded = any((not pol) and "isinstance(" in unparse(t) and "Mapping" in unparse(t) for t, pol in all_guards(c_, f_))
+            ctx.ob("C13.R12", ROWS, qual, c_, "positions of named columns come from the header map's values, not from enumerating the map", guarded, stmt=f"{qual}: enumerate(headers)")
+    ctx.note(f"C13.R12: {n_enum} enumerations of a header map outside EncodeRows")
     maps = [x for x in walk_shallow(md) if isinstance(x, ast.Assign) and isinstance(x.value, (ast.DictComp, ast.Call)) and "enumerate(" in unparse(x.value) and "chain(" in unparse(x.value)]
     ok = len(maps) == 1 and any(isinstance(g_, (ast.GeneratorExp, ast.ListComp)) and g_.generators[0].ifs for g_ in ast.walk(maps[0].value) if isinstance(g_, (ast.GeneratorExp, ast.ListComp)))
     ctx.ob("C13.R12", ROWS, "DropRows.make_drop_row_args", maps[0] if maps else md, "the name -> position map handed to KeepDense lists only the columns that survive the drop", ok, stmt="kept names only")
@@ -503,6 +518,21 @@ def r11_equality(ctx):
         ctx.ob("C13.R11", PRIM, f"{cname}.__eq__", eq, f"equality compares the cells pairwise ({builder}(<row>) == {builder}(<other>) or all(map(eq, ..))) and hashes / orders nothing", ok,
                detail={"hashing or ordering calls": [unparse(k)[:60] for k in hashed]}, stmt=f"{cname}.__eq__")
     ctx.floor("C13.R11", "__eq__ of the row base classes", n, 2)
+    # element-wise comparison over iteration would also accept what an eager list never equals: a string (iterates characters) or a mapping (iterates keys)
+    for cname in ("Dense_", "Dense"):
+        c = ctx.model.cls(PRIM, cname)
+        eq = c.methods.get("__eq__")
+        if eq is None:
+            continue
+        O = eq.args.args[1].arg
+        elementwise = [k for k in ast.walk(eq) if isinstance(k, ast.Call) and call_name(k) == "map" and k.args and unparse(k.args[0]) in ("eq", "operator.eq")]
+        if not elementwise:
+            continue
+        excl = [st for st in eq.body if isinstance(st, ast.If) and any(isinstance(r, ast.Return) and isinstance(r.value, ast.Constant) and r.value.value is False for r in st.body)
+                and any(isinstance(k, ast.Call) and call_name(k) == "isinstance" and unparse(k.args[0]) == O and "str" in unparse(k.args[1]) and ("Sparse" in unparse(k.args[1]) or "Mapping" in unparse(k.args[1]))
+                        for k in ast.walk(st.test))]
+        ctx.ob("C13.R11", PRIM, f"{cname}.__eq__", (excl or [eq])[0], "element-wise equality first rules out strings and mappings (which iterate as characters / keys)", bool(excl) and excl[0].lineno < elementwise[0].lineno,
+               stmt=f"{cname}.__eq__ excludes str and mappings")
 
 
 def _empty_marker(tree):
@@ -544,6 +574,12 @@ def r15_getitem_domain(ctx, sparse, rule="C13.R15"):
             continue
         g = CFG(gi)
         K = gi.args.args[1].arg
+        # the try that decides "the row lacks this key" contains the row look-up only: an encoder applied inside it could raise the same KeyError for a key the row HAS
+        for t in [t for t in ast.walk(gi) if isinstance(t, ast.Try) and any(h in t.handlers for h in handlers)]:
+            apps = [k for b in t.body for k in ast.walk(b) if isinstance(k, ast.Call) and (isinstance(k.func, ast.Call) or
+                    (isinstance(k.func, ast.Subscript) and "_enc" in unparse(k.func.value)) or (isinstance(k.func, ast.Name) and k.func.id in ("enc", "encoder")))]
+            ctx.ob(rule, c.rel, f"{c.qual}.__getitem__", t, "no encoder is applied inside the try whose KeyError means `the row lacks the key`", not apps,
+                   detail={"applications": [unparse(k)[:60] for k in apps]}, stmt=f"{c.name}: look-up try holds the look-up only")
         for h in handlers:
             n += 1
             starts = [nd.id for nd in g.nodes if nd.kind == "handler" and nd.ast is h]
@@ -566,6 +602,85 @@ def r15_getitem_domain(ctx, sparse, rule="C13.R15"):
     ctx.floor(rule, "KeyError handlers in __getitem__ of sparse views with an augmented key set", n, 1)
 
 
+def r17_categorical_expansion(ctx, rule="C13.R17"):
+    """EncodeCatRows: a categorical cell of a sparse row expands to `<key>_<index of its level>: 1`, and keys are handed to the encoder as keys, never as iterables."""
+    ctx.rule(rule, "flat one-hot of a sparse categorical: in the loop over enumerate(<one-hot>) the new key interpolates the POSITION, the value stored is the bit and the guard tests the bit; "
+                   "every key handed to the per-row encoder (catset) is wrapped in a list or is a [key, keys] pair -- a bare string key would be iterated character by character")
+    fn = ctx.fn(ROWS, "EncodeCatRows._encode_collection")
+    n = 0
+    for lp in [x for x in ast.walk(fn) if isinstance(x, ast.For) and isinstance(x.iter, ast.Call) and call_name(x.iter) == "enumerate" and isinstance(x.target, ast.Tuple) and len(x.target.elts) == 2]:
+        I, V = (unparse(e) for e in lp.target.elts)
+        scope = enclosing_function(lp) or fn
+        its = assigned_value(scope, unparse(lp.iter.args[0])) if isinstance(lp.iter.args[0], ast.Name) else [lp.iter.args[0]]
+        if not any("as_onehot" in unparse(v) for v in its):
+            continue
+        for st in [x for x in ast.walk(lp) if isinstance(x, ast.Assign) and isinstance(x.targets[0], ast.Subscript) and isinstance(x.targets[0].slice, ast.JoinedStr)]:
+            n += 1
+            interp = [unparse(fv.value) for fv in st.targets[0].slice.values if isinstance(fv, ast.FormattedValue)]
+            from ..util import all_guards
+            tests = [unparse(t) for t, pol in all_guards(st, scope) if pol]
+            ok = I in interp and V not in interp and unparse(st.value) in (V, "1") and any(canon(t) in (canon(f"{V} != 0"), canon(V), canon(f"{V} == 1")) for t in tests)
+            ctx.ob(rule, ROWS, "EncodeCatRows._encode_collection", st, "the expanded key names the position of the hot bit and holds the bit", ok,
+                   detail={"key interpolates": interp, "value": unparse(st.value), "guards": tests})
+    ctx.floor(rule, "sparse one-hot expansions", n, 1)
+    m = 0
+    inner = [x for x in ast.walk(fn) if isinstance(x, ast.FunctionDef) and x.name == "catset"]
+    for c_ in [c_ for c_ in ast.walk(fn) if isinstance(c_, ast.Call) and isinstance(c_.func, ast.Name) and c_.func.id == "catset" and len(c_.args) == 2
+               and not (inner and c_ in list(ast.walk(inner[0])))]:
+        m += 1
+        a = c_.args[1]
+        listy = isinstance(a, ast.List) or (isinstance(a, ast.IfExp) and "isinstance" in unparse(a.test) and "list" in unparse(a.test) and isinstance(a.orelse, ast.List)) or \
+            (isinstance(a, ast.Name) and all(isinstance(v, (ast.List, ast.ListComp)) or (isinstance(v, ast.Call) and call_name(v) == "list") for v in assigned_value(fn, a.id)) and bool(assigned_value(fn, a.id)))
+        ctx.ob(rule, ROWS, "EncodeCatRows._encode_collection", c_, "the keys argument of catset is a list (a key, also a string key, is wrapped)", listy, detail={"argument": unparse(a)})
+    ctx.floor(rule, "calls of catset from the row loop", m, 1)
+
+
+def _drop_member(tree, cname, member):
+    from ..mutate import find_def
+    cls = find_def(tree, cname)
+    keep = [st for st in cls.body if not (isinstance(st, ast.FunctionDef) and st.name == member)]
+    if len(keep) == len(cls.body):
+        raise M.TargetMissing(f"{cname}.{member}")
+    cls.body = keep
+
+
+def r16_position_changing_views(ctx, dense, rule="C13.R16"):
+    """a dense view that leaves columns out moves the positions of the columns behind them: the header map it shows, and the way it resolves a header
+    name, must be its own -- the attribute forwarding of Dense_ would hand out the map of the full row."""
+    ctx.rule(rule, "dense views that drop columns (their __len__ is not the wrapped row's) define their own `headers` (slot or property, not the forwarded map of the full row) "
+                   "and their __getitem__ distinguishes names from positions before any position arithmetic")
+    n = 0
+    for c in dense:
+        if c.rel != ROWS or "__len__" not in c.methods or "__getitem__" not in c.methods:
+            continue
+        ln = c.methods["__len__"]
+        rets = [unparse(r.value) for r in walk_shallow(ln) if isinstance(r, ast.Return) and r.value is not None]
+        if all(r in ("len(self._row)", "len(self._load_or_get())", "self._length", "len(self._encoders)") for r in rets):
+            continue
+        if not any("self._row" in r or "self._len" in r for r in rets):
+            continue
+        n += 1
+        slots = []
+        for st in c.node.body:
+            if isinstance(st, ast.Assign) and unparse(st.targets[0]) == "__slots__":
+                slots = [const_str(e) for e in ast.walk(st.value) if isinstance(e, ast.Constant)]
+        own_headers = "headers" in slots or "headers" in c.methods
+        ctx.ob(rule, ROWS, c.name, c.node, f"{c.name} shows its own header map (columns left, their positions in the view)", own_headers, stmt=f"{c.name}.headers")
+        gi = c.methods["__getitem__"]
+        K = gi.args.args[1].arg
+        arith = [x for x in ast.walk(gi) if (isinstance(x, ast.AugAssign) and isinstance(x.target, ast.Name) and x.target.id == K) or
+                 (isinstance(x, ast.Compare) and unparse(x.left) == K and isinstance(x.ops[0], (ast.Lt, ast.LtE, ast.Gt, ast.GtE)))]
+        by_map = any(isinstance(x, ast.Call) and call_tail(x) == "get" and x.args and unparse(x.args[0]) == K for x in ast.walk(gi)) or \
+            any(isinstance(x, ast.Subscript) and is_self_attr(x.value) and unparse(x.slice) == K for x in ast.walk(gi))
+        from ..util import all_guards
+        typed = all(any("__class__" in unparse(t) or "isinstance" in unparse(t) for t, pol in all_guards(x, gi)) or
+                    any(isinstance(p_, ast.If) and ("__class__" in unparse(p_.test) or "isinstance" in unparse(p_.test)) and p_.lineno < x.lineno and
+                        any(isinstance(r, (ast.Return, ast.Raise)) for r in ast.walk(p_)) for p_ in gi.body) for x in arith)
+        ctx.ob(rule, ROWS, f"{c.name}.__getitem__", gi, "a header name is told apart from a position before positions are compared or shifted", by_map or (bool(arith) and typed),
+               stmt=f"{c.name}.__getitem__ names")
+    ctx.floor(rule, "dense views that drop columns", n, 2)
+
+
 def _unguarded_fast_iter(tree):
     from ..mutate import find_def
     fn = find_def(tree, "LazyDense.__iter__")
@@ -573,7 +688,15 @@ def _unguarded_fast_iter(tree):
 
 
 CONTROLS = [
-    ("EncodeSparse answers every encoded key", ROWS, M.replace_expr("EncodeSparse.__getitem__", "key in self._nsp", "key in self._enc"), "C13.R15"),
+    ("sparse one-hot keyed by the bit", ROWS, M.replace_stmt("EncodeCatRows._encode_collection", M.text_has("o[f'{_k}_{i}'] = v"), "if i != 0: o[f'{_k}_{v}'] = i"), "C13.R17"),
+    ("string keys handed to catset as they are", ROWS, M.replace_expr("EncodeCatRows._encode_collection", "k if isinstance(k, list) else [k]", "k"), "C13.R17"),
+    ("dense rows equal strings of their characters", PRIM, M.delete_stmt("Dense_.__eq__", M.text_has("isinstance(o, (str, bytes, Sparse))")), "C13.R11"),
+    ("feats forwards the full row's header map", ROWS, lambda tree: _drop_member(tree, "DropOne", "headers"), "C13.R16"),
+    ("DropRows pairs names with positions by the order the header map was written in", ROWS, M.replace_expr("DropRows.make_drop_row_args",
+        "[not (i in drop_cols or (i in names and names[i] in drop_cols)) for i in range(len(first))]", "[not any((i in drop_cols for i in I)) for I in enumerate(first.headers)]"), "C13.R12"),
+    ("EncodeSparse answers every encoded key", ROWS, M.replace_expr("EncodeSparse.__getitem__", "key not in self._nsp", "key not in self._enc"), "C13.R15"),
+    ("EncodeSparse applies the encoder inside the look-up try", ROWS, M.replace_stmt("EncodeSparse.__getitem__", lambda st: isinstance(st, ast.Try),
+        "try:\n    return self._enc.get(key, lambda x: x)(self._row[key])\nexcept KeyError:\n    if key not in self._nsp: raise\n    val = '0'"), "C13.R15"),
     ("LazyDense iterates without the decode guard when the reader saw no marker", ROWS, _unguarded_fast_iter, "C13.R8"),
     ("SparseDense iterates an empty snapshot", ROWS, M.delete_stmt("SparseDense.__iter__", lambda st: isinstance(st, ast.If) and ast.unparse(st.test) == "not sort"), "C13.R14"),
     ("forwarding __getattr__ without a base case", PRIM, M.delete_stmt("Dense_.__getattr__", M.text_has("if attr == '_row': raise AttributeError(attr)")), "C13.R13"),
